@@ -150,9 +150,119 @@ def check_parser_feeds(ctx, rule):
 
 
 def check_parser(ctx, rule):
-    check_tokenizer_iter(ctx, rule)
-    check_decode(ctx, rule)
-    check_parser_feeds(ctx, rule)
+    parser_semantics(ctx, rule)
+
+
+def parser_semantics(ctx, rule):
+    """Parser feed / feed_byte / get_message / pending / __len__ / iteration / parse / parse_all, abstractly interpreted on one
+    stream cut in different ways with retrieval calls in between (symbolic data bytes): messages come out first-in first-out,
+    pending() is the number still retrievable, get_message() is None exactly when nothing is pending, and the list of messages
+    does not depend on the chunking."""
+    from .. import smf, wire
+    from ..absint import AList, AObj
+    from ..fold import ClassRef
+    ai = smf.make_interp(ctx)
+    cls = ctx.p.cls(PAR, 'Parser')
+    w = f'{cls.module.relpath}:{cls.node.lineno} Parser'
+    n1, v1, n2, v2, d0, d1, d2 = (smf.sym(x, 127) for x in ('n1', 'v1', 'n2', 'v2', 'd0', 'd1', 'd2'))
+    stream = [0x93, n1, v1, 0xf8, 0x85, n2, v2, 0xf0, d0, d1, d2, 0xf7, 0x40, 0xc1]
+    want = [('note_on', {'channel': 3, 'note': n1, 'velocity': v1}), ('clock', {}), ('note_off', {'channel': 5, 'note': n2, 'velocity': v2}),
+            ('sysex', {'data': AList([d0, d1, d2], 'tuple')})]
+
+    def call(obj, name, *args):
+        o, fn = ctx.p.lookup_method(obj.cls, name)
+        if fn is None:
+            raise AnalysisError(f'Parser.{name} not found')
+        ctx.fn(fn)
+        return ai.call_function(fn, [obj] + list(args), {})
+
+    def same(msg, exp):
+        if not isinstance(msg, AObj) or msg.attrs.get('type') != exp[0]:
+            return False
+        return all(wire.value_equal(msg.attrs.get(k), v) for k, v in exp[1].items())
+
+    def history():
+        p = ai.apply(ClassRef(cls), [], {}, None)
+        obs = []
+        obs.append(('pending', call(p, 'pending')))
+        obs.append(('get', call(p, 'get_message')))
+        call(p, 'feed', AList(stream[:2], 'list'))
+        obs.append(('pending', call(p, 'pending')))
+        obs.append(('get', call(p, 'get_message')))
+        call(p, 'feed_byte', stream[2])
+        obs.append(('pending', call(p, 'pending')))
+        call(p, 'feed', AList(stream[3:9], 'list'))
+        obs.append(('pending', call(p, 'pending')))
+        obs.append(('len', call(p, '__len__')))
+        obs.append(('get', call(p, 'get_message')))
+        obs.append(('pending', call(p, 'pending')))
+        obs.append(('iter', list(ai.iterate(p, None))))
+        obs.append(('pending', call(p, 'pending')))
+        obs.append(('get', call(p, 'get_message')))
+        call(p, 'feed', AList(stream[9:], 'list'))
+        obs.append(('pending', call(p, 'pending')))
+        obs.append(('get', call(p, 'get_message')))
+        obs.append(('get', call(p, 'get_message')))
+        return obs
+    outs = ai.explore(history)
+    if len(outs) != 1 or outs[0].kind != 'return':
+        ctx.fail(rule, 'parser-history', w, f'feeding and retrieving does not complete on one path: {outs}', construct=f'{cls.qname}::history::outcomes')
+    else:
+        obs = outs[0].value
+        exp = [('pending', 0), ('get', None), ('pending', 0), ('get', None), ('pending', 1), ('pending', 3), ('len', 3), ('get', want[0]), ('pending', 2),
+               ('iter', [want[1], want[2]]), ('pending', 0), ('get', None), ('pending', 1), ('get', want[3]), ('get', None)]
+        for i, ((k, got), (k2, e)) in enumerate(zip(obs, exp)):
+            if k in ('pending', 'len'):
+                ok = got == e
+            elif k == 'get':
+                ok = (got is None) if e is None else same(got, e)
+            else:
+                ok = len(got) == len(e) and all(same(a, b) for a, b in zip(got, e))
+            sub = {'pending': 'pending', 'len': 'pending', 'get': 'get_message', 'iter': 'iteration'}[k]
+            ctx.require(ok, rule, f'parser-history[{i}:{k}]', w,
+                        f'step {i} ({k}) observes {got!r}; with first-in first-out delivery of the messages parsed so far it must be {e!r}',
+                        construct=f'{cls.qname}::history::{sub}')
+    # chunking independence on this stream: at once, byte by byte, every 2-cut, constructor, parse_all, parse
+    def all_msgs(chunks, how):
+        def thunk():
+            if how == 'ctor':
+                p = ai.apply(ClassRef(cls), [AList(list(stream), 'list')], {}, None)
+            else:
+                p = ai.apply(ClassRef(cls), [], {}, None)
+                for ch in chunks:
+                    if how == 'bytes':
+                        for b in ch:
+                            call(p, 'feed_byte', b)
+                    else:
+                        call(p, 'feed', AList(list(ch), 'list'))
+            return list(ai.iterate(p, None)), call(p, 'pending')
+        return ai.explore(thunk)
+    variants = [('at once', [stream], 'feed'), ('byte by byte', [stream], 'bytes'), ('constructor', [stream], 'ctor')]
+    for cut in range(1, len(stream)):
+        variants.append((f'cut at {cut}', [stream[:cut], stream[cut:]], 'feed'))
+    for label, chunks, how in variants:
+        outs = all_msgs(chunks, how)
+        ok = len(outs) == 1 and outs[0].kind == 'return' and len(outs[0].value[0]) == len(want) and \
+            all(same(a, b) for a, b in zip(outs[0].value[0], want)) and outs[0].value[1] == 0
+        ctx.require(ok, rule, f'parser-chunking[{label}]', w,
+                    f'feeding the stream {label} gives {outs[0].value if len(outs) == 1 and outs[0].kind == "return" else outs!r}; expected the 4 messages {[x[0] for x in want]}',
+                    construct=f'{cls.qname}::chunking')
+    m = ctx.p.module(PAR)
+    for fname in ('parse_all', 'parse'):
+        f = m.functions.get(fname)
+        if f is None:
+            continue
+        ctx.fn(f)
+        outs = ai.explore(lambda: ai.call_function(f, [AList(list(stream), 'list')], {}))
+        if fname == 'parse_all':
+            v = outs[0].value if len(outs) == 1 and outs[0].kind == 'return' else None
+            items = v.items if isinstance(v, AList) else v if isinstance(v, list) else None
+            ok = items is not None and len(items) == len(want) and all(same(a, b) for a, b in zip(items, want))
+        else:
+            ok = len(outs) == 1 and outs[0].kind == 'return' and same(outs[0].value, want[0])
+        ctx.require(ok, rule, fname, ctx.where(f), f'{fname}(stream) gives {outs}', construct=f'{f.qname}::result')
+    for q in ai.inlined:
+        ctx.functions.add(q)
 
 
 def check_parser_init(ctx, rule):
@@ -273,10 +383,31 @@ def check_fifo_scan(ctx, rule):
 TOK_FIELDS = {'_status', '_bytes', '_len'}
 
 
+def _closure(ctx, cls, start):
+    seen = set()
+    todo = [start]
+    while todo:
+        nm = todo.pop()
+        if nm in seen:
+            continue
+        seen.add(nm)
+        o, fn = ctx.p.lookup_method(cls, nm)
+        if fn is None:
+            continue
+        # any method named through self (called directly, or taken as a bound method and called through a local name)
+        for a in ast.walk(fn.node):
+            if isinstance(a, ast.Attribute) and isinstance(a.value, ast.Name) and a.value.id == 'self' and isinstance(a.ctx, ast.Load) \
+                    and ctx.p.lookup_method(cls, a.attr)[1] is not None:
+                todo.append(a.attr)
+    return seen
+
+
 def check_single_writers(ctx, rule):
-    """Tokenizer fields are written only by __init__/_feed_*; Parser fields only in __init__."""
-    allowed_tok = {'mido/tokenizer.py::Tokenizer.__init__', 'mido/tokenizer.py::Tokenizer._feed_status_byte',
-                   'mido/tokenizer.py::Tokenizer._feed_data_byte'}
+    """Tokenizer state is written only by __init__ and by the byte handlers (methods reachable from feed_byte, but not
+    feed / retrieval methods); parser fields only in __init__; nobody outside the class touches them."""
+    tcls = ctx.p.cls(TOK, 'Tokenizer')
+    handlers = _closure(ctx, tcls, 'feed_byte') - {'feed', '__iter__', '__len__', '__init__'}
+    allowed_tok = {f'mido/tokenizer.py::Tokenizer.{h}' for h in handlers} | {'mido/tokenizer.py::Tokenizer.__init__'}
     n = 0
     for fn in ctx.p.all_functions():
         for t, st in astq.stores_in(fn.node):
@@ -298,26 +429,43 @@ def check_single_writers(ctx, rule):
     ctx.floor(rule + '-writers', n, 9)
 
 
+IMPURE_BUILTINS = {'open', 'input', 'print', 'id', 'globals', 'locals', 'vars', 'exec', 'eval', '__import__', 'hash', 'setattr', 'delattr'}
+PURE_MODULES = {'collections', 'numbers', 'itertools', 'operator', 'functools', 'typing', 'abc'}
+
+
 def check_purity(ctx, rule):
-    """Tokenizer/Parser methods depend on nothing but their fields, arguments and constants."""
-    allowed_ext = {'isinstance', 'len', 'deque', 'collections.deque', 'list', 'numbers.Integral', 'TypeError', 'ValueError', 'range', 'enumerate',
-                   'zip', 'min', 'max', 'int', 'bool', 'tuple', 'bytes', 'bytearray'}
+    """Tokenizer/Parser methods depend on nothing but their fields, arguments and constants: no global statement, no call
+    into a module that can carry state or read the environment (time, random, os, threading, ...), no impure builtin."""
     for modname in (TOK, PAR):
         m = ctx.p.module(modname)
         for c in m.classes.values():
             for fn in c.methods.values():
                 ctx.fn(fn)
+                local = {t.id for t, _ in astq.stores_in(fn.node) if isinstance(t, ast.Name)} | set(fn.params())
                 for node in astq.walk_shallow(fn.node):
                     if isinstance(node, (ast.Global, ast.Nonlocal)):
                         ctx.fail(rule, f'{c.name}.{fn.name}.global', ctx.where(fn, node), 'uses global state',
                                  construct=f'{fn.qname}::global')
                     if isinstance(node, ast.Call):
-                        r = astq.resolve_callee(ctx.p, fn, node)
                         ctx.call_sites += 1
-                        if isinstance(r, str) and not r.startswith('self.') and r.split('.')[-1] not in (
-                                'append', 'popleft', 'extend', 'feed', 'feed_byte', 'format') and r not in allowed_ext:
-                            ctx.fail(rule, f'{c.name}.{fn.name}.call({r})', ctx.where(fn, node),
-                                     f'calls {r}: the result of parsing may depend on something other than the bytes fed',
-                                     construct=f'{fn.qname}::calls({r})')
+                        f = node.func
+                        bad = None
+                        root = f
+                        while isinstance(root, ast.Attribute):
+                            root = root.value
+                        if isinstance(root, ast.Name) and root.id not in local:
+                            if isinstance(f, ast.Name) and f.id in IMPURE_BUILTINS and f.id not in m.functions and f.id not in m.imports:
+                                bad = f.id
+                            elif root.id in m.imports:
+                                modn, attr = m.imports[root.id]
+                                top = (modn or '').split('.')[0]
+                                if top and top != 'mido' and not (modn or '').startswith('mido') and top not in PURE_MODULES \
+                                        and not modn.startswith('.'):
+                                    if ctx.p.resolve(m, root.id).kind == 'external':
+                                        bad = unparse(f)
+                        if bad:
+                            ctx.fail(rule, f'{c.name}.{fn.name}.call({bad})', ctx.where(fn, node),
+                                     f'calls {bad}: the result of parsing may depend on something other than the bytes fed',
+                                     construct=f'{fn.qname}::calls({bad})')
                         else:
                             ctx.ok(rule, f'{c.name}.{fn.name}.call', ctx.where(fn, node))
